@@ -330,7 +330,7 @@ func init() {
 	register(&core.Check{
 		ID:    "C04",
 		Level: "exploration",
-		Rule: "per run a timeline of 3-7 events in one seeded world: Intel publishes a new signed TCB Info (1-6 levels, each all-pass or failing/sitting exactly at the boundary at ONE index of SGX components / PCE SVN / TDX components, any of the 7 statuses; occasional FMSPC / PCE-ID / SEAM signer / attribute / mask-length faults; module identities present / absent / several / with non-matching levels), the platform is patched (new SVNs, new PCK certificate with tape-ordered SGX extension, new quote), or the PCS serves the previous unexpired version; after each event verify.RawTdxQuote and SupportedTcbLevelsFromCollateral are compared with an executable transcription of the C04 sentence applied to the served document. " +
+		Rule: "per run a timeline of 3-7 events in one seeded world: Intel publishes a new signed TCB Info (1-6 levels, each all-pass or failing/sitting exactly at the boundary at ONE index of SGX components / PCE SVN / TDX components, any of the 7 statuses; occasional FMSPC / PCE-ID / SEAM signer / attribute / mask-length faults; module identities present / absent / several / with non-matching levels, also levels whose isvsvn exceeds the one-byte module SVN: 256 + k, 65536 + k, ...), the platform is patched (new SVNs, new PCK certificate with tape-ordered SGX extension, new quote), or the PCS serves the previous unexpired version; after each event verify.RawTdxQuote and SupportedTcbLevelsFromCollateral are compared with an executable transcription of the C04 sentence applied to the served document. " +
 			"distinct = (list length, first-match index or none, status of that level, module branch, module level index, deciding clause)",
 		Assumptions: []string{
 			"hosted: the fault/schedule dimension adds little here; the deciding element is agreement with the reference model over seeded party states",
